@@ -13,7 +13,7 @@ RULE = ("Finite grid, fully enumerated in both tiers: reference position (instru
         "some reference undefined -> raises and the message names it; definition without '@' -> raises; otherwise (defined but "
         "listed earlier than its user, or a defined string macro used as a key with an operand list) -> expanded or reported, "
         "i.e. if it compiles the regex contains no '@'. Non-trivial = every grid cell; distinct = (cell, variant).")
-FLOOR = {"quick": 200, "thorough": 2000}
+FLOOR = {"quick": 400, "thorough": 5000}
 ANCHOR_HINTS = ["macro_expander", "yaml2regex"]
 REQUIRED_EVENTS = ["cells_judged"]
 SHARDS = {"quick": 8, "thorough": 16}
@@ -129,7 +129,7 @@ def judge(ctx, ws, cell, variant):
 def run_shard(ctx):
     ws = real.Workspace()
     cells = list(itertools.product(POSITIONS, DEFINED, ORDER, WHERE, OTHERS))
-    variants = 1 if ctx.tier == "quick" else 12
+    variants = 2 if ctx.tier == "quick" else 40
     jobs = [(c, v) for c in cells for v in range(variants)]
     for i, (c, v) in enumerate(jobs):
         if i % ctx.nshards == ctx.shard:
